@@ -760,8 +760,6 @@ def check_C12(sc, v, tier, seed, replay):
     # up to 4e12, rates whose octets contain the identifier of a later IE (00 8B, 00 86, 00 88), TEID / address corners
     rates = list(range(0, 301)) + [x for k in range(1, 6) for x in (256 ** k - 1, 256 ** k, 256 ** k + 1)] + [4000000000000, 0x8B00, 0x8B0000, 0x01008B, 0x8600, 0x018800, 0x008B008B]
     sweep = [(r, 7) for r in rates] + [(9, r) for r in rates]
-    if tier == "quick":
-        sweep = [sweep[i] for i in range(len(sweep)) if i % 2 == seed % 2 or sweep[i][0] in (139, 134, 136, 130) or sweep[i][1] in (139, 134, 136, 130)]
     for (dl, ul) in sweep:
         skel.append({"id": len(skel), "transferOnly": True, "withAmbr": True, "ambrDl": big(dl), "ambrUl": big(ul),
                      "teid": rnd.choice([[0, 0, 0, 0], [0, 139, 0, 139], [255, 255, 255, 255], [rnd.randrange(256) for _ in range(4)]]),
